@@ -312,7 +312,7 @@ struct Job {
 }
 
 fn run(tier: Tier) -> Sink {
-    let nmax = tier.pick(400, 3000);
+    let nmax = tier.pick(1200, 3000);
     let nfe = tier.pick(400, 1000);
     let nexact = tier.pick(60, 200);
     let mut jobs = vec![];
@@ -333,6 +333,22 @@ fn run(tier: Tier) -> Sink {
             judge_wald(j.n, k, j.kind, j.level, j.z, s);
         }
     });
+    // a few large populations with a sparse set of counts (the formula has no n-dependent
+    // branch today; a future one would show here)
+    let mut big = vec![];
+    for (kind, level) in vcheck::confs(tier) {
+        for n in [5_000usize, 10_000, 65_537, 100_000, 1_000_000, 123_456_789] {
+            big.push((n, kind, level, z_of(kind, level)));
+        }
+    }
+    let sbig = par_judge(&big, |&(n, kind, level, z), s| {
+        for k in [0, 1, 2, 9, 10, 11, n / 1000, n / 100, n / 10, n / 3, n / 2, n - n / 10, n - 11, n - 10, n - 9, n - 2, n - 1, n, n + 1] {
+            let base = judge_wilson(n, k, kind, level, z, false, s);
+            judge_frontend(Fe::Ci, n, k, kind, level, &base, s);
+            judge_wald(n, k, kind, level, z, s);
+        }
+    });
+    s = s.merge(sbig);
     // boolean front-ends: every boolean sequence up to length 12 (quick 10), three
     // canonical arrangements up to 60
     let lmax = tier.pick(10, 12);
@@ -395,8 +411,8 @@ fn main() {
     s.sample(json!({"fe":"Ratio","n":22,"k":15,"rate":"15/22","expect":"bit-identical to ci_wilson(22,15)"}));
     s.sample(json!({"fe":"ci_if","bits":[1,0,1,1,0,1,0,1],"expect":"interval of (8,5); negated predicate counts (8,3)"}));
     rep.rule = format!(
-        "every (n,k) with 0<=n<={}, 0<=k<=n+1 x {} confidences (levels x 3 kinds) through ci_wilson and ci_z_normal; ci, Stats::new().ci and ci_wilson_ratio(n,k/n) for n<={}; exact-rational score residual for n<={}; every boolean sequence of length <={} and 3 arrangements x 8 counts for lengths up to 60 through ci_true, ci_if, Stats::from_iter/extend/extend_if/add_*; distinct by (front-end, outcome variant, kind)",
-        tier.pick(400, 3000),
+        "every (n,k) with 0<=n<={}, 0<=k<=n+1 (plus 19 counts for each n in {{5e3,1e4,65537,1e5,1e6,123456789}}) x {} confidences (levels x 3 kinds) through ci_wilson and ci_z_normal; ci, Stats::new().ci and ci_wilson_ratio(n,k/n) for n<={}; exact-rational score residual for n<={}; every boolean sequence of length <={} and 3 arrangements x 8 counts for lengths up to 60 through ci_true, ci_if, Stats::from_iter/extend/extend_if/add_*; distinct by (front-end, outcome variant, kind)",
+        tier.pick(1200, 3000),
         vcheck::confs(tier).len(),
         tier.pick(400, 1000),
         tier.pick(60, 200),
